@@ -2,13 +2,17 @@
 #![allow(warnings)]
 /*ABI_ENUM*/
 #[derive(Debug, Copy, Clone, PartialEq)] pub enum ClangAbi { Known(Abi), Unknown(u32) }
+/// the one fact about the target the decision uses (real: BindgenContext::target_decorates_symbols, a test on the target triple): a flag here
+pub struct BindgenContext { pub decorates: bool }
+impl BindgenContext { pub fn target_decorates_symbols(&self) -> bool { self.decorates } }
 pub mod utils { use super::*; /*NAMES_FN*/ }
+/*NAMES_ADAPTER*/
 pub mod attributes { pub fn link_name<const M: bool>(n: &str) -> usize { n.as_ptr() as usize } }
 pub struct Function<'a> { pub link: Option<&'a str> }
 impl<'a> Function<'a> {
     pub fn link_name(&self) -> Option<&str> { self.link }
     /// Function::codegen: which #[link_name] (if any) the binding gets
-    pub fn decide<'b>(&'b self, canonical_name: String, mangled_name: Option<&'b str>, name: &'b str, abi: ClangAbi) -> (Option<&'b str>, String) {
+    pub fn decide<'b>(&'b self, ctx: &BindgenContext, canonical_name: String, mangled_name: Option<&'b str>, name: &'b str, abi: ClangAbi) -> (Option<&'b str>, String) {
         /*FN_STMT*/
         (link_name_attr, canonical_name)
     }
@@ -19,7 +23,7 @@ impl<'a> Var<'a> {
     pub fn mangled_name(&self) -> Option<&str> { self.mangled }
     pub fn name(&self) -> &str { self.nm }
     /// Var::codegen: the symbol the extern static refers to, and whether a #[link_name] attribute was pushed
-    pub fn decide(&self, canonical_name: String) -> (bool, bool) {
+    pub fn decide(&self, ctx: &BindgenContext, canonical_name: String) -> (bool, bool) {
         let mut attrs: Vec<usize> = Vec::new();
         /*VAR_STMT*/
         let same = symbol.as_ptr() == canonical_name.as_str().as_ptr() && symbol.len() == canonical_name.len();
@@ -37,8 +41,9 @@ mod proofs {
         (b, n)
     }
     /// what the platform linker derives from the Rust-side name `c` for calling convention `abi`: c itself, or the x86 decoration
-    fn decorated(abi: Option<ClangAbi>, c: &[u8], m: &[u8]) -> bool {
+    fn decorated(decorates: bool, abi: Option<ClangAbi>, c: &[u8], m: &[u8]) -> bool {
         if c == m { return true; }
+        if !decorates { return false; }     // ELF, wasm, 64-bit Windows: the symbol is the name as written
         let (prefix, suffix) = match abi {
             None | Some(ClangAbi::Known(Abi::C)) | Some(ClangAbi::Known(Abi::CUnwind)) => (b'_', false),
             Some(ClangAbi::Known(Abi::Stdcall)) => (b'_', true),
@@ -62,19 +67,21 @@ mod proofs {
     fn names_identical_iff_platform_decoration() {
         let (cb, cn) = sym_bytes::<3>(); let (mb, mn) = sym_bytes::<7>();
         let abi = any_abi();
-        let r = utils::names_will_be_identical_after_mangling(s(&cb, cn), s(&mb, mn), abi);
-        let want = decorated(abi, &cb[..cn], &mb[..mn]);
+        let ctx = BindgenContext { decorates: kani::any() };
+        let r = names_identical!(&ctx, s(&cb, cn), s(&mb, mn), abi);
+        let want = decorated(ctx.decorates, abi, &cb[..cn], &mb[..mn]);
         assert!(!r || want, "link_name omitted although the platform decoration of the Rust name is not the C symbol");
         assert!(r || !want || cb[..cn] != mb[..mn], "identical names must never need a link_name");
         // not over-conservative for the decorations it is documented to know
         assert!(r == want, "names_will_be_identical_after_mangling differs from the decoration table");
-        kani::cover!(r && cn != mn, "a decorated name recognised");
+        kani::cover!(r && cn != mn, "a decorated name recognised"); kani::cover!(!r && !ctx.decorates && mn == cn + 1 && mb[0] == b'_', "an undecorated target: _name is another symbol");
     }
     /// C12: the link-name decision never panics (slice indices, subtraction) whatever the two names and the ABI are
     #[kani::proof] #[kani::unwind(10)]
     fn link_name_decision_never_panics() {
         let (cb, cn) = sym_bytes::<3>(); let (mb, mn) = sym_bytes::<7>();
-        let r = utils::names_will_be_identical_after_mangling(s(&cb, cn), s(&mb, mn), any_abi());
+        let ctx = BindgenContext { decorates: kani::any() };
+        let r = names_identical!(&ctx, s(&cb, cn), s(&mb, mn), any_abi());
         kani::cover!(r, "identical"); kani::cover!(!r && mn == cn + 1, "prefix only, not identical");
     }
     #[kani::proof] #[kani::unwind(10)]
@@ -85,12 +92,13 @@ mod proofs {
         let f = Function { link: if has_link { Some(s(&lb, ln)) } else { None } };
         let canonical = String::from(s(&cb, cn));
         let mangled = if has_mangled { Some(s(&mb, mn)) } else { None };
-        let (attr, canonical) = f.decide(canonical, mangled, s(&nb, nn), abi);
+        let ctx = BindgenContext { decorates: kani::any() };
+        let (attr, canonical) = f.decide(&ctx, canonical, mangled, s(&nb, nn), abi);
         // the symbol the C compiler emitted
         let truth: &[u8] = if has_link { &lb[..ln] } else if has_mangled { &mb[..mn] } else { &nb[..nn] };
         match attr {
             Some(a) => assert!(a.as_bytes() == truth, "#[link_name] names a different symbol"),
-            None => assert!(decorated(Some(abi), canonical.as_bytes(), truth), "no #[link_name], yet the Rust name does not decorate to the C symbol"),
+            None => assert!(decorated(ctx.decorates, Some(abi), canonical.as_bytes(), truth), "no #[link_name], yet the Rust name does not decorate to the C symbol"),
         }
         kani::cover!(attr.is_none() && !has_link, "link_name omitted");
         core::mem::forget(canonical);
@@ -101,9 +109,10 @@ mod proofs {
         let has_mangled: bool = kani::any(); let has_link: bool = kani::any();     // link: a name given by a generated_link_name_override callback (e.g. --prefix-link-name)
         let v = Var { link: if has_link { Some(s(&lb, ln)) } else { None }, mangled: if has_mangled { Some(s(&mb, mn)) } else { None }, nm: s(&nb, nn) };
         let canonical = String::from(s(&cb, cn));
-        let (has_attr, uses_canonical) = v.decide(canonical);
+        let ctx = BindgenContext { decorates: kani::any() };
+        let (has_attr, uses_canonical) = v.decide(&ctx, canonical);
         let truth: &[u8] = if has_link { &lb[..ln] } else if has_mangled { &mb[..mn] } else { &nb[..nn] };
-        if !has_attr { assert!(decorated(None, &cb[..cn], truth), "extern static without #[link_name] does not reach the C symbol (the platform decoration of its Rust name is another symbol)"); }
+        if !has_attr { assert!(decorated(ctx.decorates, None, &cb[..cn], truth), "extern static without #[link_name] does not reach the C symbol (the platform decoration of its Rust name is another symbol)"); }
         if !has_attr && !has_link { assert!(uses_canonical, "symbol recorded for dynamic loading is not the Rust name although no #[link_name] was needed"); }
         kani::cover!(has_link && has_attr, "override bound through #[link_name]");
     }
